@@ -313,6 +313,8 @@ func (r *binaryReader) StepOut() error {
 	}
 
 	if err := r.bits.StepOut(); err != nil {
+		// The stream position is lost; make the failure permanent.
+		r.err = err
 		return err
 	}
 
